@@ -46,6 +46,7 @@ fn floors(t: Tier) -> Vec<(String, u64)> {
         ("concat.ok".into(), 5000),
         ("concat.with_bad_record".into(), 1000),
         ("concat.with_surplus_payload".into(), 1000),
+        ("suffix.virtual_4gib".into(), 500),
     ]
 }
 
@@ -97,6 +98,27 @@ fn judge_suffix(ctx: &mut Ctx, b: &[u8], tag: &str) {
                     format!("declared length {} of {} octets, but the reader is left with {} octets instead of {}", end, b.len(), base.remaining, b.len() - end),
                     w_input(b, Some(o)),
                 );
+            }
+        }
+    }
+    // (1b) the same input at the front of a buffer that continues for more than 4 GiB (virtual
+    // zero octets): same value, and exactly the declared length consumed
+    if let (Out::Ok(m), Some(end)) = (&base.out, end) {
+        let has_len = match m {
+            SMsg::Control(_) => true,
+            SMsg::Data(d) => d.length.is_some(),
+        };
+        if has_len && ctx.rng.chance(1, 8) {
+            let tail = *ctx.rng.pick(&[0x1_0000_0000usize - b.len() + 5, 0x1_0000_0000, 0x1_0000_000f, 0x2_0000_0003, 1 << 40]);
+            let run = exec::decode_msg(b, Some(o), Rk::VirtualTail(tail));
+            ctx.rep.bucket("suffix.virtual_4gib");
+            match &run.out {
+                Out::Ok(y) if y == m && run.remaining == b.len() - end + tail => {}
+                other => ctx.violate(
+                    format!("C08:huge-suffix:{}", other.class()),
+                    format!("with {} more (zero) octets behind the input the result is {} with {} octets left; without them {:?} with {} left", tail, out_str(other), run.remaining, m, base.remaining),
+                    J::obj(vec![("input_hex", J::hex(b)), ("virtual_zero_octets_appended", J::U(tail as u64)), ("options", J::s(opts_str(Some(o))))]),
+                ),
             }
         }
     }
